@@ -21,6 +21,12 @@ var tokenAtoms = []string{"1", "foo", "'a'", "@v", "select", "union", "or", "=",
 var tokenAtomsCore = []string{"1", "foo", "'a'", "@v", "select", "union", "or", "=", "-", "(", ")", ",", ";", ".", "\\", "{", "::", "int", "not", "/*c*/"}
 var tokenAtomsThorough = []string{"1", "foo", "'a'", "@v", "select", "union", "or", "=", "-", "(", ")", ",", ";", ".", "\\", "{", "}", "::", "int", "not", "/*c*/", "user", "in", "--x\n"}
 
+// fiveAtoms: targeted alphabet for the five-token special cases of the folder, including
+// tokens whose class is only settled by a later rewrite (IN without '(' becomes a bare
+// word, a backslash before an arithmetic operator becomes a number), so that the first
+// five tokens match a pattern only after the sixth has been read.
+var fiveAtoms = []string{"1", "foo", "in", "\\", "*", "=", ",", "(", ")", "union", "select", "or"}
+
 func c06Oracle(c ev.Case) Res {
 	in := c.In
 	res := Res{}
@@ -117,6 +123,15 @@ func ruleCoverage(l *ev.Local, in string) {
 	}
 }
 
+// sampled: deterministic 1-in-k selection by content (independent of scheduling)
+func sampled(s string, k uint32) bool {
+	h := uint32(2166136261)
+	for i := 0; i < len(s); i++ {
+		h = (h ^ uint32(s[i])) * 16777619
+	}
+	return h%k == 0
+}
+
 func sqlCase(in string) ev.Case { return ev.Case{Kind: "diff", In: in} }
 
 // sqlTruncations: every prefix of every literal form and of every corpus entry (G4).
@@ -167,13 +182,17 @@ func TestC06(t *testing.T) {
 	p := c.rec.NewPart("bytes_exhaustive", fmt.Sprintf("every string of length 0..%d over the %d-symbol SQL byte-class alphabet", L, len(gen.AlphaSQL)), false, true, fmt.Sprintf("%d^<=%d", len(gen.AlphaSQL), L))
 	c.EnumSeq(p, gen.AlphaSQL, "", 0, L, judge)
 	Lc := pick(5, 6)
-	p = c.rec.NewPart("bytes_core_exhaustive", fmt.Sprintf("every string of length %d..%d over the %d-symbol core alphabet", L+1, Lc, len(gen.CoreSQL)), false, true, "")
-	c.EnumSeq(p, gen.CoreSQL, "", L+1, Lc, judge)
+	core := gen.CoreSQL
+	if !thorough() {
+		core = core[:18] // quick: the 18 symbols that open, close or escape a construct
+	}
+	p = c.rec.NewPart("bytes_core_exhaustive", fmt.Sprintf("every string of length %d..%d over the %d-symbol core alphabet", L+1, Lc, len(core)), false, true, "")
+	c.EnumSeq(p, core, "", L+1, Lc, judge)
 
 	// (1b) token-level enumeration (space-joined atoms)
 	p = c.rec.NewPart("tokens_exhaustive", fmt.Sprintf("every space-joined sequence of 1..4 atoms over %d token atoms", len(tokenAtoms)), false, true, "")
 	c.EnumSeq(p, tokenAtoms, " ", 1, 4, func(w *Worker, s string) {
-		if w.n%97 == 0 {
+		if sampled(s, 97) {
 			ruleCoverage(w.l, s)
 		}
 		judge(w, s)
@@ -185,6 +204,15 @@ func TestC06(t *testing.T) {
 		p = c.rec.NewPart("tokens_core_exhaustive", fmt.Sprintf("every space-joined sequence of 5 atoms over %d core atoms", len(tokenAtomsCore)), false, true, "")
 		c.EnumSeq(p, tokenAtomsCore, " ", 5, 5, judge)
 	}
+
+	Lf := pick(6, 7)
+	p = c.rec.NewPart("five_token_exhaustive", fmt.Sprintf("every space-joined sequence of exactly %d atoms over the %d-atom five-token-special alphabet", Lf, len(fiveAtoms)), false, true, "")
+	c.EnumSeq(p, fiveAtoms, " ", Lf, Lf, func(w *Worker, s string) {
+		if sampled(s, 13) {
+			ruleCoverage(w.l, s)
+		}
+		judge(w, s)
+	})
 
 	// truncations
 	tr := sqlTruncationInputs()
